@@ -52,15 +52,22 @@ def build(tier, seed):
         groups.setdefault((kind, heavy), []).append((impl, ty, sched))
     # type identity of every row (vtable of the built trait object == vtable of the generic decoder of the
     # documented arithmetic and schedule, boxed directly); 9 rows per harness
-    per_t = 9
-    for gi in range(0, len(impls), per_t):
-        chunk = impls[gi:gi + per_t]
-        hn = "c18_types_%d" % (gi // per_t)
-        body = ";\n    ".join("%s, %s, %s, %s" % (i, sc, t, "horizontal_layered" if sc == "flooding" else "flooding") for i, t, sc in chunk)
-        items.append((Harness(hn, {"names": [i for i, _, _ in chunk], "expected": ["%s::Decoder<%s>" % (sc, t) for i, t, sc in chunk],
-                                    "oracle": "build_decoder(name) has the vtable of Box<expected type>; the other schedule has a different vtable (sanity of the oracle)",
-                                    "input": "concrete (a type-identity fact, no symbolic data)"}, 40.0, stubs="TABLE"),
-                      "crate::c18_types!(%s, with_table_stubs, 6;\n    %s);" % (hn, body)))
+    by_kind = {"i8": [r_ for r_ in impls if arith.type_info(r_[1])["kind"] == "i8"],
+               "float": [r_ for r_ in impls if arith.type_info(r_[1])["kind"] == "float"]}
+    gno = 0
+    for kind_, rows_k, per_t in (("i8", by_kind["i8"], 8), ("float", by_kind["float"], 6)):
+        stubs_t = "with_table_stubs" if kind_ == "i8" else "with_surrogate_stubs"
+        for gi in range(0, len(rows_k), per_t):
+            chunk = rows_k[gi:gi + per_t]
+            hn = "c18_types_%d" % gno
+            gno += 1
+            body = ";\n    ".join("%s, %s, %s, %s, %d" % (i, sc, t, "horizontal_layered" if sc == "flooding" else "flooding", width_of(t)) for i, t, sc in chunk)
+            items.append((Harness(hn, {"names": [i for i, _, _ in chunk], "expected": ["%s::Decoder<%s>" % (sc, t) for i, t, sc in chunk],
+                                        "oracle": "build_decoder(name) has the vtable of the expected type (then behaviour is identical by construction); if it has not, the row is decided behaviourally inside the same harness (width witness + differential decode on the 2x3 chain, symbolic LLRs)",
+                                        "input": "concrete type-identity fact; symbolic LLRs only for rows whose type differs"}, 40.0,
+                                  stubs="TABLE" if kind_ == "i8" else "SURROGATE", neighbourhood=True,
+                                  covers=1),  # the witnesses inside the behavioural fallback are unreachable while every row has the documented type
+                          "crate::c18_types!(%s, %s, 6;\n    %s);" % (hn, stubs_t, body)))
     # behavioural pairing + width witness through the factory: every row in the thorough tier, five representative
     # rows in the quick tier (each such harness costs 250-300 s; the 900 s budget does not hold 36 of them)
     QUICK_ROWS = ("Phif64", "HLTanhf32", "Minstarapproxi8JonesPartialHardLimitDeg1Clip", "HLAminstari8", "Aminstari8Jones", "HLMinstarapproxf64")
